@@ -306,7 +306,8 @@ theorem c23_consumer_once (st : St) (h : GInv st) (acts : List Act)
 
 /-- **Forward to all others** (the `consume` transition): when the manager event stream takes
     an `OperationReceived(x)` of session `sid` (still registered in its topic map), every *other* live session of the same topic gets
-    `x` appended to its `live_mode_rx` — nothing else about that session changes. -/
+    `x` appended to its `live_mode_rx` — nothing else about that session changes. There is no
+    bound on the queue length: a full channel makes the real forward wait, never drop. -/
 theorem c23_forward_all (st : St) (sid : Nat) (s : Sess) (x : Nat) (q : List Nat)
     (hfind : st.sess.find? (fun s => s.sid = sid) = some s) (hq : s.evQ = x :: q)
     (hnd : st.dropped.contains sid = false)
@@ -1112,6 +1113,12 @@ theorem c23_consume_is_source (st : St) (sid : Nat) :
 theorem c23_session_guards_are_source :
     P2.Extracted.C23.liveArmGuard = "!dedup.insert(operation.hash)"
     ∧ P2.Extracted.C23.remoteArmGuard = "!dedup.insert(header.hash())" := by decide
+
+/-- The live channel's capacity read from the current source (`CHANNEL_BUFFER`) is positive: the
+    forward of `c23_forward_all` — which appends whatever the queue length, i.e. *waits for room
+    and never drops* — can always eventually proceed once the target session takes a message.
+    The harness sizes its back-pressure burst as this capacity + k. -/
+theorem c23_channel_buffer_pos : 1 ≤ P2.Extracted.C23.channelBuffer := by decide
 
 /-! ## Non-vacuity -/
 section Examples
